@@ -485,6 +485,17 @@ func propBounds(c Case) error {
 		hi[i] = v.V() + float64(i+1)
 	}
 	b := geom.NewBounds(l).Set(append(model.Floats(c.Coord), hi...)...)
+	switch len(c.Muts) % 5 {
+	case 1:
+		// a box that has data in some of its dimensions only (an XYZ or XYZM box that only
+		// ever saw XY geometries)
+		b = geom.NewBounds(l).Extend(geom.NewPointFlat(geom.XY, model.Floats(c.Coord)[:2]))
+	case 2:
+		// an interval written the wrong way round in one dimension (Set stores what it is given)
+		args := append(model.Floats(c.Coord), hi...)
+		args[0], args[len(c.Coord)] = args[len(c.Coord)], args[0]
+		b = geom.NewBounds(l).Set(args...)
+	}
 	vals := []*geom.Bounds{b, b.Clone()}
 	if snapBounds(vals[0]) != snapBounds(vals[1]) {
 		return fmt.Errorf("Bounds.Clone() = %s, original %s", snapBounds(vals[1]), snapBounds(vals[0]))
@@ -518,7 +529,11 @@ func propBounds(c Case) error {
 			}
 			t.Extend(geom.NewPointFlat(ex, co))
 		case "clone":
-			vals = append(vals, t.Clone())
+			cl := t.Clone()
+			if snapBounds(cl) != snapBounds(t) {
+				return fmt.Errorf("step %d: Bounds.Clone() = %s, its source %s", step, snapBounds(cl), snapBounds(t))
+			}
+			vals = append(vals, cl)
 		}
 		for i := range before {
 			if i != on && before[i] != snapBounds(vals[i]) {
